@@ -328,6 +328,26 @@ func (rn *runner) precisionProbes() {
 			})
 		}
 	}
+	// operands with more digits than the package's exponent limit (well-formed: only exponent and adjusted exponent
+	// are limited): the first internal rounding of such a coefficient fails inside Rounder.Round, and a loop that
+	// keeps multiplying through an ErrDecimal must notice (repo: Cbrt's scaling loops used to spin forever)
+	for _, n := range []int{100010, 100100, 150000} {
+		for _, e := range []int64{-99000, int64(-n) + 2, int64(-n) - 50000} {
+			x := decFromBig(new(big.Int).Add(pow10(n-1), big.NewInt(1)), e, false)
+			rn.apiCase("DigitProbe", fmt.Sprintf("roots-logs %d %d", n, e), func() {
+				c := apd.BaseContext.WithPrecision(5)
+				var d apd.Decimal
+				_, _ = c.Cbrt(&d, x)
+				_, _ = c.Sqrt(&d, x)
+				_, _ = c.Ln(&d, x)
+				_, _ = c.Log10(&d, x)
+				_, _ = c.Pow(&d, x, half)
+				_, _, _ = c.Reduce(&d, x)
+				_, _ = c.Round(&d, x)
+				_, _ = c.Quantize(&d, x, 0)
+			})
+		}
+	}
 	// Pow works at max(Precision, digits of the base)+10: a long base at a small precision
 	for _, n := range []int{2036, 2037, 2038, 2039, 2040, 2990, 3000} {
 		x := decFromBig(new(big.Int).Sub(pow10(n), big.NewInt(3)), int64(-n+1), false)
